@@ -193,6 +193,11 @@ func litObj(v N) object.Object {
 		return object.NewBool(v["v"].(bool))
 	case "float":
 		return object.NewFloat(float64(num(v["h"])) / 2)
+	case "foreign":
+		if v["n"] == "buffer" {
+			return object.NewBufferFromBytes([]byte(cpsString(v["v"])))
+		}
+		return object.NewByteSlice([]byte(cpsString(v["v"])))
 	}
 	return object.Nil
 }
@@ -594,6 +599,8 @@ func litSrc(v N) string {
 			return "true"
 		}
 		return "false"
+	case "foreign":
+		return v["n"].(string) + "(" + litSrc(N{"t": "str", "v": v["v"]}) + ")"
 	case "float":
 		f := strconv.FormatFloat(float64(num(v["h"]))/2, 'f', 1, 64)
 		if strings.HasPrefix(f, "-") {
